@@ -94,7 +94,7 @@ func init() {
 	registry["C20"] = &propCfg{
 		Engine: kcache.Engine{}, EngineName: "kcache", Level: "exploration",
 		QuickRuns: 400000, ThoroughRuns: 6000000, QuickCapS: 60, ThoroughCapS: 900,
-		Rule: "one run = one Unfolder with EnableKeyCache(n), n drawn from {0,1,2,3,5,64,1000}, fed a history of 1-8 (thorough: 1-16) documents whose object keys come from an alphabet of 1-8 keys (hits, misses, evictions, re-insertions), written by the independent writers in a drawn format and parsed by the real parser under per-document chunk schedules with chunk buffers scribbled after every write, into a drawn map-bearing target type; all targets are inspected only after the whole history; evaluations = histories; distinct by (capacity, format, target, documents, schedules); every history is non-trivial (keys delivered by reference through the cache)",
+		Rule: "one run = one Unfolder with EnableKeyCache(n), n drawn from {0,1,2,3,5,64,1000} or exactly the number of distinct keys +-1, fed a history of 1-8 (thorough: 1-16) documents whose object keys come from a structured alphabet of 1-8 keys (common prefix/suffix at equal length, nested prefixes, one differing middle byte, multi-byte runes, single bytes 0x80-0xff, arbitrary bytes, NUL-padding/length-byte collisions, very long keys around 4096/8192/65536 bytes), written by the independent writers in a drawn format and parsed by the real parser under per-document chunk schedules with chunk buffers scribbled after every write, into a drawn map-bearing target type; all targets are inspected only after the whole history; evaluations = histories; distinct by (capacity, format, target, documents, schedules); every history is non-trivial (keys delivered by reference through the cache)",
 		Components: map[string][]string{
 			"real": {"gotype.Unfolder incl. symbolCache", "json/ubjson/cborl Parser"},
 			"stub": {"caller-side chunk buffers (simkit.Feed, scribbled)"}},
@@ -103,7 +103,7 @@ func init() {
 	registry["C14"] = &propCfg{
 		Engine: abandon.Engine{}, EngineName: "abandon", Level: "exploration", RacePhaseRuns: 40000,
 		QuickRuns: 300000, ThoroughRuns: 6000000, QuickCapS: 60, ThoroughCapS: 900,
-		Rule: "one run = one (well-formed stream, target type) pair - the stream is the fold of a catalogue value of the same or another type, or a generated stream; the target any catalogue type incl. an unsupported one - abandoned after k events for EVERY k (24 sampled + complete if the stream has >40 events), with announced lengths of still-open containers inflated to {2^16,2^20,2^31-1,2^31,2^40,2^62,2^63-1} in half of the cases; then Reset, SetTarget and a compatible probe document; evaluations = (stream,target,k) triples; distinct by (target, delivered prefix, announcements, probe type); all are non-trivial (a crash point or a complete mismatching document)",
+		Rule: "one run = one (well-formed stream, target type) pair - the stream is the fold of a catalogue value of the target's or another type, a generated stream (typed hints, deep chains), hand-made events for the self-nesting Tree type, 1 in 3 then mutated in the middle (subtree replaced, members rotated or dropped); the target any catalogue type incl. an unsupported one, 1 in 3 pre-populated, 1 in 4 with user-defined unfolders (three styles) - abandoned after k events for EVERY k (24 sampled + complete if >40 events), with announced lengths of still-open containers inflated to {2^16,2^20,2^31-1,2^31,2^40,2^62,2^63-1} in half of the cases; then Reset, SetTarget and a compatible probe document (1 in 3 of the same type); evaluations = (stream,target,k) triples; distinct by (target, delivered prefix, announcements, probe type); all are non-trivial (a crash point or a complete mismatching document); the first 40000 runs are repeated under the -race build",
 		Components: map[string][]string{
 			"real": {"gotype.Unfolder (all generated and reflection based unfolder states, Reset, SetTarget)", "gotype.Fold (stream source)"},
 			"stub": {"the producer (events replayed by the simulator, by value or by reference)"}},
@@ -121,7 +121,7 @@ func init() {
 	registry["C19"] = &propCfg{
 		Engine: conc.Engine{}, EngineName: "conc", Level: "exploration", Race: true, RunsPerProc: 8, GoMaxProcs: "1",
 		QuickRuns: 8000, ThoroughRuns: 300000, QuickCapS: 50, ThoroughCapS: 900,
-		Rule: "one run = 2-6 caller goroutines, each with a seeded program of 1-4 pipeline operations on instances of its own (fold->encoder->writer, reader->parser->unfolder, transcode, fold->unfold, iterator+unfolder reused across values, per-instance custom folders/unfolders that differ between tasks for the same Go type) over shared read-only documents, Go values and Go types, executed under the serialized seeded task scheduler (policy drawn from 7: uniform, sticky .5/.9/.99, round-robin, random priorities, run-to-completion) with a task switch possible at every Read, Write (before the buffer is consumed) and visitor event; a worker process executes at most 8 runs so that first use of every type happens under contention; evaluations = runs; distinct by (interleaving digest, programs) and non-trivial if more task switches than tasks occurred",
+		Rule: "one run = 2-6 caller goroutines, each with a seeded program of 1-4 pipeline operations on instances of its own (nine kinds: fold->encoder->writer with per-task JSON encoder options, reader->parser->unfolder incl. documents with members unknown to the target, transcode, fold->unfold, iterator+unfolder reused across values, per-instance custom folder, per-instance custom unfolder inside the shared enclosing type Holder, parse-hostile = corrupted/truncated shared documents, events-encode = generated event streams incl. high-precision values) over shared read-only documents, Go values (always one Inner-bearing value, one map whose key needs HTML escaping, 1-2 values with inline interface/Folder fields) and Go types (incl. two distinct types with the same qualified name), executed under the serialized seeded task scheduler (7 policies) with a task switch possible at every Read, Write (before the buffer is consumed) and visitor event; GOMAXPROCS=1; a worker process executes at most 8 runs; for a quarter of the runs (half in thorough) every task is also executed alone in a fresh process of its own and compared; evaluations = runs; distinct by (interleaving digest, programs) and non-trivial if more task switches than tasks occurred",
 		Components: map[string][]string{
 			"real": {"gotype.Fold/Iterator/Unfolder incl. reflection-based compilation and type registries", "json/ubjson/cborl Parser and Visitor", "Go race detector (-race) as oracle"},
 			"stub": {"thread scheduler (simkit.Sched: one runnable goroutine at a time, hand-offs hidden from the race detector)", "io.Reader / io.Writer / visitor taps that yield to the scheduler"}},
